@@ -168,6 +168,32 @@ struct HistEngine : Engine {
 		}
 	}
 
+	/* a bare time anywhere in the text (HH:MM.. not preceded by a date), or YYYY-MM alone: the date comes from `now' */
+	static bool looks_clock_dependent(const std::string &line)
+	{
+		size_t a = 0;
+		while (a <= line.size()) {
+			size_t e = line.find_first_of(" \t\n", a);
+			if (e == std::string::npos)
+				e = line.size();
+			std::string x = line.substr(a, e - a);
+			for (size_t i = 0; i < x.size(); i++) {
+				if (x[i] == ':' && i >= 2) {
+					size_t b = i - 2;
+					bool dated = b >= 11 && (x[b - 1] == 'T') && isdigit((unsigned char)x[b - 2]) && x[b - 4] == '-';
+					if (!dated)
+						return true;
+					i += 6;
+				}
+			}
+			if (x.size() == 7 && x[4] == '-')
+				return true;
+			a = e + 1;
+		}
+		/* "date time" with a blank in between is one value for the format-less parser */
+		return false;
+	}
+
 	/* ---- invocations drawn from the shared grammar (invgen.h) instead of the table ---- */
 	Plan generate_grammar(Rng &r, const Config &cfg)
 	{
@@ -228,7 +254,10 @@ struct HistEngine : Engine {
 		p.clock.per_read_s = r.chance(1, 3) ? 0 : r.chance(1, 2) ? 86400 : 86400 * 366;
 		/* whatever leaves a field to `now' (bare times, short formats without --base) legitimately reads the
 		 * clock at a moment that differs between the long run and the one-value run: frozen clock */
-		if (!iv.full || iv.kind == inv::K_TIME || iv.has_base) {
+		bool tdep = false;
+		for (auto &v : vals)
+			tdep |= looks_clock_dependent(v);
+		if (!iv.full || iv.kind == inv::K_TIME || iv.has_base || tdep) {
 			p.clock.per_read_s = 0;
 			p.par["clockdep"] = "1";
 		}
